@@ -67,8 +67,15 @@ class Exec:
 
     def container(self, xs):
         """present a per-layer list in one of the container types the documentation allows"""
-        r = int(self.np.integers(0, 3)) if self.np is not None else 0
+        r = int(self.np.integers(0, 6)) if self.np is not None else 0
         arr = [float(x) for x in xs]
+        n = len(arr)
+        if r == 3:      # a column of a frame sorted / filtered by the user: labels are not 0..n-1 (values are taken by position)
+            return pd.Series(arr, index=list(range(n - 1, -1, -1)))
+        if r == 4:
+            return pd.Series(arr, index=[10 * (i + 1) for i in range(n)])
+        if r == 5:
+            return pd.Series(arr, index=["layer_%d" % i for i in range(n)])
         return [arr, np.array(arr), pd.Series(arr)][r]
 
     def do(self, op):
@@ -343,6 +350,58 @@ def check_make(n, ths, iflist_len):
     return ("make-length", f"make_snowpack accepted {len(ths)} thicknesses with {iflist_len} interfaces", "SMRTError (array length mismatch)")
 
 
+def check_make_values(seed, shape):
+    """per-layer properties equal those given, by position, whatever the argument shape (list, ndarray, Series with any index), scalars
+    broadcast, zero-thickness layers dropped"""
+    import pandas as pd
+    from smrt.inputs.make_medium import make_snowpack
+    from smrt.core.error import SMRTError
+    rng = np.random.default_rng(seed)
+    n = int(rng.integers(2, 7))
+    th = [round(float(v), 3) for v in rng.uniform(0.05, 2.0, n)]
+    if rng.random() < 0.3:
+        th[int(rng.integers(0, n))] = 0.0
+    dens = [round(float(v), 1) for v in rng.uniform(100, 500, n)]
+    temp = [round(float(v), 2) for v in rng.uniform(200, 270, n)]
+    cl = [round(float(v), 6) for v in rng.uniform(5e-5, 4e-4, n)]
+
+    def wrap(xs):
+        if shape == "list":
+            return list(xs)
+        if shape == "ndarray":
+            return np.array(xs)
+        if shape == "series":
+            return pd.Series(xs)
+        if shape == "series-reversed-labels":
+            return pd.Series(xs, index=list(range(n - 1, -1, -1)))
+        if shape == "series-shuffled-labels":
+            return pd.Series(xs, index=[int(v) for v in np.random.default_rng(seed + 1).permutation(n)])
+        if shape == "series-offset-labels":
+            return pd.Series(xs, index=[10 * (i + 1) for i in range(n)])
+        if shape == "series-string-labels":
+            return pd.Series(xs, index=["layer_%d" % i for i in range(n)])
+        if shape == "frame-filtered":
+            df = pd.DataFrame({"v": [-1.0] + list(xs), "keep": [False] + [True] * n})
+            return df[df.keep]["v"]
+        raise ValueError(shape)
+    try:
+        sp = make_snowpack(wrap(th), "exponential", density=wrap(dens), temperature=wrap(temp), corr_length=wrap(cl))
+    except SMRTError as e:
+        return ("make-values:" + shape, f"make_snowpack refuses valid per-layer {shape} arguments: SMRTError {e}", "a snowpack")
+    except Exception as e:  # noqa
+        return ("make-values:" + shape, f"make_snowpack with per-layer {shape} arguments raises {type(e).__name__}: {e}", "a snowpack")
+    keep = [i for i in range(n) if th[i] > 0]
+    got = [(float(l.thickness), float(l.density), float(l.temperature), float(l.microstructure.corr_length)) for l in sp.layers]
+    want = [(th[i], dens[i], temp[i], cl[i]) for i in keep]
+    if len(got) != len(want) or any(abs(a - b) > 1e-12 * max(1.0, abs(b)) for g, w in zip(got, want) for a, b in zip(g, w)):
+        return ("make-values:" + shape, f"layers (thickness, density, temperature, corr_length) = {got}", f"{want} (given, by position)")
+    return None
+
+
+MAKE_SHAPES = ["list", "ndarray", "series", "series-reversed-labels", "series-shuffled-labels", "series-offset-labels", "series-string-labels",
+               "frame-filtered"]
+
+
 def minimise(ops, pred):
     ops = list(ops)
     changed = True
@@ -389,6 +448,13 @@ def oracle(ctx, hints, effort):
             key = "z:" + cls
             if key not in findings or len(z) < len(findings[key].inp["z"]):
                 findings[key] = Finding(key, f"compute_thickness_from_z({z}) = {got}", {"kind": "z", "z": z}, got, want)
+    for shape in MAKE_SHAPES:
+        for _ in range(3 if effort == "routine" else 20):
+            evals += 1
+            sd = int(rng.integers(0, 2**31))
+            r = check_make_values(sd, shape)
+            if r is not None:
+                findings.setdefault(r[0], Finding(r[0], r[1], {"kind": "make-values", "seed": sd, "shape": shape}, r[1], r[2]))
     for (ths, m) in [([1, 2], 3), ([1, 2, 3], 5), ([1], 2)]:
         evals += 1
         r = check_make(len(ths), ths, m)
@@ -405,6 +471,9 @@ def replay(inp, rp=None):
         exp = expected_z(inp["z"]); got = impl_z(inp["z"])
         want = "ERR:SMRTError" if exp is None else " ".join(map(str, exp))
         return Finding("?", "compute_thickness_from_z", inp, got, want) if got != want else None
+    if inp["kind"] == "make-values":
+        r = check_make_values(inp["seed"], inp["shape"])
+        return Finding("?", r[1], inp, r[1], r[2]) if r else None
     if inp["kind"] == "make":
         r = check_make(len(inp["ths"]), inp["ths"], inp["iflen"])
         return Finding("?", r[1], inp, r[1], r[2]) if r else None
